@@ -156,6 +156,11 @@ bounds = [
     ("bound_arith_dc_stats", arr(JDARITH, "jdarith.c", r"dc_stats\s*\[([^\]]+)\]", "arith dc_stats")),
     ("bound_arith_ac_stats", arr(JDARITH, "jdarith.c", r"ac_stats\s*\[([^\]]+)\]", "arith ac_stats")),
     ("bound_natural_order", nat_decl),
+    ("bound_newnz_pos", arr(JDPHUFF, "jdphuff.c", r"int\s+newnz_pos\s*\[([^\]]+)\]", "decode_mcu_AC_refine newnz_pos[]")),
+    ("bound_lh_arrays", min(arr(JDLHUFF, "jdlhuff.c", r"\*cur_tbls\s*\[([^\]]+)\]", "lhuff cur_tbls"),
+                            arr(JDLHUFF, "jdlhuff.c", r"JDIFFROW\s+output_ptr\s*\[([^\]]+)\]", "lhuff output_ptr"),
+                            arr(JDLHUFF, "jdlhuff.c", r"output_ptr_info\s*\[([^\]]+)\]", "lhuff output_ptr_info"),
+                            arr(JDLHUFF, "jdlhuff.c", r"int\s+output_ptr_index\s*\[([^\]]+)\]", "lhuff output_ptr_index"))),
 ]
 
 # ---------------------------------------------------------------- guard anchors
@@ -211,6 +216,19 @@ GUARDS = [
     (JDHUFF_C, "jdhuff.c", "if (cinfo->src->bytes_in_buffer < BUFSIZE * (size_t)cinfo->blocks_in_MCU || cinfo->unread_marker != 0) usefast = 0;", "decode_mcu fast-path threshold"),
     (JDHUFF_C, "jdhuff.c", "if (cinfo->restart_interval) { if (entropy->restarts_to_go == 0) if (!process_restart(cinfo)) return FALSE; usefast = 0; }", "decode_mcu no fast path with restarts"),
     (JDHUFF_C, "jdhuff.c", "if (bits_left <= 16) { GET_BYTE GET_BYTE GET_BYTE GET_BYTE GET_BYTE GET_BYTE }", "fast path prefetch of 6 bytes"),
+    (JDPHUFF, "jdphuff.c", "for (k = cinfo->Ss; k <= Se; k++) { HUFF_DECODE(s, br_state, tbl, return FALSE, label2); r = s >> 4; s &= 15; if (s) { k += r; CHECK_BIT_BUFFER(br_state, s, return FALSE); r = GET_BITS(s); s = HUFF_EXTEND(r, s);", "AC first loop"),
+    (JDPHUFF, "jdphuff.c", "(*block)[jpeg_natural_order[k]] = (JCOEF)LEFT_SHIFT(s, Al); } else { if (r == 15) { k += 15; } else { EOBRUN = 1 << r; if (r) { CHECK_BIT_BUFFER(br_state, r, return FALSE); r = GET_BITS(r); EOBRUN += r; } EOBRUN--; break; } }", "AC first store / EOB run"),
+    (JDPHUFF, "jdphuff.c", "k = cinfo->Ss; if (EOBRUN == 0) { for (; k <= Se; k++) { HUFF_DECODE(s, br_state, tbl, goto undoit, label3); r = s >> 4; s &= 15;", "AC refine outer loop"),
+    (JDPHUFF, "jdphuff.c", "do { thiscoef = *block + jpeg_natural_order[k]; if (*thiscoef != 0) {", "AC refine inner loop head"),
+    (JDPHUFF, "jdphuff.c", "} else { if (--r < 0) break; } k++; } while (k <= Se); if (s) { int pos = jpeg_natural_order[k]; (*block)[pos] = (JCOEF)s; newnz_pos[num_newnz++] = pos; }", "AC refine inner loop tail / new coefficient"),
+    (JDPHUFF, "jdphuff.c", "if (EOBRUN > 0) { for (; k <= Se; k++) { thiscoef = *block + jpeg_natural_order[k];", "AC refine EOB tail"),
+    (JDPHUFF, "jdphuff.c", "cinfo->num_components * 2 * DCTSIZE2 * sizeof(int)", "coef_bits allocation"),
+    (JDPHUFF, "jdphuff.c", "coef_bit_ptr = &cinfo->coef_bits[cindex][0]; prev_coef_bit_ptr = &cinfo->coef_bits[cindex + cinfo->num_components][0];", "coef_bits rows"),
+    (JDPHUFF, "jdphuff.c", "for (coefi = MIN(cinfo->Ss, 1); coefi <= MAX(cinfo->Se, 9); coefi++) {", "coef_bits previous-row loop"),
+    (JDPHUFF, "jdphuff.c", "for (coefi = cinfo->Ss; coefi <= cinfo->Se; coefi++) {", "coef_bits band loop"),
+    (JDLHUFF, "jdlhuff.c", "for (sampn = 0, ptrn = 0; sampn < cinfo->blocks_in_MCU;) { compptr = cinfo->cur_comp_info[cinfo->MCU_membership[sampn]]; ci = compptr->component_index; for (yoffset = 0; yoffset < compptr->MCU_height; yoffset++, ptrn++) {", "lhuff start_pass pointer loop"),
+    (JDLHUFF, "jdlhuff.c", "for (xoffset = 0; xoffset < compptr->MCU_width; xoffset++, sampn++) { entropy->output_ptr_index[sampn] = ptrn; entropy->cur_tbls[sampn] = entropy->derived_tbls[compptr->dc_tbl_no]; }", "lhuff start_pass sample loop"),
+    (JDLHUFF, "jdlhuff.c", "*entropy->output_ptr[entropy->output_ptr_index[sampn]]++ = (JDIFF)s;", "lhuff decode_mcus store"),
     (JDMARKER, "jdmarker.c", "marker->cur_marker = cur_marker; marker->bytes_read = 0;", "save_marker sets bytes_read whenever it sets cur_marker"),
     (JDMARKER, "jdmarker.c", "cinfo->marker->next_restart_num = 0;", "get_sos resets next_restart_num"),
     (JDHUFF_C, "jdhuff.c", "for (k = 1; k < DCTSIZE2; k++) { HUFF_DECODE(s, br_state, actbl, return FALSE, label2); r = s >> 4; s &= 15; if (s) { k += r; CHECK_BIT_BUFFER(br_state, s, return FALSE); r = GET_BITS(s); s = HUFF_EXTEND(r, s);", "decode_mcu_slow AC loop"),
